@@ -10,6 +10,7 @@ import (
 	"github.com/idena-network/idena-go/blockchain/attachments"
 	"github.com/idena-network/idena-go/blockchain/types"
 	"github.com/idena-network/idena-go/common"
+	"github.com/idena-network/idena-go/crypto"
 
 	"verifharness/internal/chainfx"
 )
@@ -25,7 +26,7 @@ type Pair struct {
 func NewPair(seed int64, shortEpochs bool, nUsers int) (*Pair, error) {
 	r := rand.New(rand.NewSource(seed))
 	w := chainfx.NewWorld(seed, nUsers, 0, time.Date(2030, 1, 1, 0, 0, 0, 0, time.UTC))
-	h, err := chainfx.Bootstrap(w, chainfx.HistoryOpts{ShortEpochs: shortEpochs, TxPerBlock: 4, WithFlips: true}, r, true)
+	h, err := chainfx.Bootstrap(w, chainfx.HistoryOpts{ShortEpochs: shortEpochs, TxPerBlock: 4, WithFlips: true, Always: map[int]bool{1: true}}, r, true)
 	if err != nil {
 		return nil, err
 	}
@@ -44,15 +45,40 @@ func NewPair(seed int64, shortEpochs bool, nUsers int) (*Pair, error) {
 func (p *Pair) OfferConflicts(b int) {
 	w, r, n := p.W, p.R, p.A
 	nU := len(w.Keys) - 1
-	if n.App.State.ValidationPeriod() != 0 {
-		return
-	}
 	send := func(i int, tx *types.Transaction) {
 		if _, err := p.H.S.Send(n, i, tx); err == nil {
 			p.H.Stats["conflict-tx-ok"]++
 		} else {
 			p.H.Stats["conflict-tx-rej"]++
 		}
+	}
+	if period := n.App.State.ValidationPeriod(); period != 0 {
+		// ceremony periods: the same participant submits a ceremony transaction of one kind twice within one block
+		// interval (consecutive nonces, different content): only the first may be applied
+		i := r.Intn(len(w.Keys))
+		switch period {
+		case 2: // short session
+			for k := 0; k < 2; k++ {
+				hh := crypto.Hash([]byte{byte(i), byte(k), byte(b)})
+				send(i, &types.Transaction{Type: types.SubmitAnswersHashTx, Payload: hh[:]})
+			}
+		case 3: // long session
+			switch r.Intn(3) {
+			case 0:
+				for k := 0; k < 2; k++ {
+					send(i, &types.Transaction{Type: types.SubmitLongAnswersTx, Payload: chainfx.LongAnswersPayload(n, w.Keys[i], []byte{byte(k), byte(b)})})
+				}
+			case 1:
+				for k := 0; k < 2; k++ {
+					send(i, &types.Transaction{Type: types.SubmitShortAnswersTx, Payload: attachments.CreateShortAnswerAttachment([]byte{byte(k), byte(b)}, 1, 1)})
+				}
+			default:
+				send(i, &types.Transaction{Type: types.SubmitLongAnswersTx, Payload: chainfx.LongAnswersPayload(n, w.Keys[i], []byte{9, byte(b)})})
+				send(i, &types.Transaction{Type: types.SubmitShortAnswersTx, Payload: attachments.CreateShortAnswerAttachment([]byte{7, byte(b)}, 1, 1)})
+				send(i, &types.Transaction{Type: types.SubmitLongAnswersTx, Payload: chainfx.LongAnswersPayload(n, w.Keys[i], []byte{8, byte(b)})})
+			}
+		}
+		return
 	}
 	switch r.Intn(7) {
 	case 0: // overspend chain: each send is affordable alone, not together
